@@ -27,6 +27,9 @@ type leadSim struct {
 	frozen   bool
 	writes   int // MPEG-TS, audio leading: writes into the open segment
 	gen      int // bumped whenever segStart / prtStart move
+	// what the last cuts closed (ticks), for the generator's statistics and the rounding aim (gen.go)
+	cuts, pcuts     int
+	cutDur, pcutDur int64
 }
 
 func (m *leadSim) ttd(ticks int64) int64 { return mulDivGo(ticks+m.off, 1e9, m.rate) }
@@ -39,10 +42,12 @@ func (m *leadSim) tsUnit(d int64, ra, changed, audio bool) {
 		m.gen++
 	case audio:
 		if m.writes >= 100 && m.ttd(d)-m.ttd(m.segStart) >= m.segMin {
+			m.cuts, m.cutDur = m.cuts+1, d-m.segStart
 			m.segStart, m.writes = d, 0
 			m.gen++
 		}
 	case ra && (changed || m.ttd(d)-m.ttd(m.segStart) >= m.segMin):
+		m.cuts, m.cutDur = m.cuts+1, d-m.segStart
 		m.segStart = d
 		m.gen++
 	}
@@ -79,6 +84,10 @@ func (m *leadSim) sample(d int64, ra, changed bool) {
 	}
 	switch {
 	case ra && (changed || m.ttd(d)-m.ttd(m.segStart) >= m.segMin):
+		m.cuts, m.cutDur = m.cuts+1, d-m.segStart
+		if m.variant == 3 {
+			m.pcuts, m.pcutDur = m.pcuts+1, d-m.prtStart
+		}
 		m.segStart, m.prtStart = d, d
 		if changed {
 			m.frozen, m.durs = false, nil
@@ -87,6 +96,7 @@ func (m *leadSim) sample(d int64, ra, changed bool) {
 		}
 		m.gen++
 	case m.variant == 3 && m.ttd(d)-m.ttd(m.prtStart) >= m.adj:
+		m.pcuts, m.pcutDur = m.pcuts+1, d-m.prtStart
 		m.prtStart = d
 		m.gen++
 	}
